@@ -60,7 +60,13 @@ def per_state(rep, name, sysm, states, fn, *, max_samples=3, describe=None):
         outs = []
         for i in idxs:
             snap, model, _ = states[i]
-            o = fn(sysm, snap, model)
+            try:
+                o = fn(sysm, snap, model)
+            except Exception as e:  # noqa  (an exception nobody anticipated: a verdict about the library, not a harness crash)
+                import traceback
+                o = Out()
+                o.viol(rep.prop, "unexpected_exception", f"evaluating a state raised {type(e).__name__}: {e!r:.120}",
+                       trace=traceback.format_exc()[-600:])
             outs.append((i, o.evals, o.nontrivial, o.viols, dict(o.stats), o.samples[:1]))
         return outs
 
